@@ -88,7 +88,24 @@ def gen_world(rnd):
         tasks.append(kw)
     parents = [None if (k == 0 or rnd.random() < 0.45) else rnd.randrange(k) for k in range(n)]
     detached = [rnd.random() < 0.1 for _ in range(n)]
-    return {'tasks': tasks, 'wbs': 1, 'parents': parents, 'detached': detached}
+    # dependency lists are task lists too: links between the tasks, and now and then a task outside the WBS that carries
+    # the id of a member (a copy kept from another plan) linked next to that member
+    links = []
+    for _ in range(rnd.randint(0, n)):
+        a, b = rnd.randrange(n), rnd.randrange(n)
+        if a != b:
+            links.append([a, b])
+    if n >= 2 and rnd.random() < 0.3:
+        for _ in range(rnd.randint(1, 2)):
+            j = rnd.randrange(n)
+            tw = dict(tasks[j], name=rnd.choice(['alpha', 'copy', None]), tag=rnd.choice(['x', 'q']))
+            tasks.append(tw)
+            parents.append(None)
+            detached.append(True)
+            i = rnd.choice([k for k in range(n) if k != j])
+            links.append([i, len(tasks) - 1])
+            links.append([i, j])
+    return {'tasks': tasks, 'wbs': 1, 'parents': parents, 'detached': detached, 'links': links}
 
 
 def build(world):
@@ -102,6 +119,11 @@ def build(world):
                     w.roots.append(t)
             else:
                 u.tasks[p].children.append(t)
+        except RuntimeError:
+            pass
+    for a, b in world.get('links') or []:
+        try:
+            u.tasks[a].predecessors.append(u.tasks[b])
         except RuntimeError:
             pass
     return u
@@ -167,6 +189,11 @@ def pick_list(u, step):
     if kind == 'all_children':
         t = u.tasks[step['of'] % len(u.tasks)]
         return t.all_children, list(t.all_children)
+    if kind in ('predecessors', 'successors'):
+        linked = [t for t in u.tasks if len(getattr(t, kind))] or u.tasks
+        t = linked[step['of'] % len(linked)]
+        u.link_holder = u.L(t)
+        return getattr(t, kind), list(getattr(t, kind))
     raise KeyError(kind)
 
 
@@ -235,6 +262,18 @@ def judge(case, acc):
             want = _with_attr(s0, [u.L(t) for t in exp], step['attr'], step['value'])
             if s1 != want:
                 acc.violation('C18/bulk-assignment-effect', f'assigning {step["attr"]}={step["value"]!r} on {[t.id for t in exp]}: {diff(want, s1)}', one)
+        elif op == 'remove_all' and step['list'] in ('predecessors', 'successors'):
+            # on a dependency list "removes" means: takes the matching tasks out of that list (both ends of each link)
+            import copy
+            want = copy.deepcopy(s0)
+            mine, theirs = ('preds', 'succs') if step['list'] == 'predecessors' else ('succs', 'preds')
+            holder = u.link_holder
+            for t in exp:
+                lab = u.L(t)
+                want['T'][holder][mine] = [x for x in want['T'][holder][mine] if x != lab]
+                want['T'][lab][theirs] = [x for x in want['T'][lab][theirs] if x != holder]
+            if graph.setlevel(s1) != graph.setlevel(want):
+                acc.violation('C18/remove_all-effect/' + step['list'], f'{step["list"]}.remove_all {kw} (matching {[t.id for t in exp]}): {diff(want, s1)}', one)
         elif op == 'remove_all':
             want = _removed(s0, [u.L(t) for t in exp], u, step['list'] == 'wbs')
             if graph.setlevel(s1) != graph.setlevel(want):
@@ -269,7 +308,7 @@ def gen_case(rnd):
     steps = []
     for _ in range(6):
         r = rnd.random()
-        step = {'list': rnd.choice(['tasks', 'tasks', 'roots', 'children', 'result', 'all_children']), 'of': rnd.randrange(9), 'op': 'query'}
+        step = {'list': rnd.choice(['tasks', 'tasks', 'roots', 'children', 'result', 'all_children', 'predecessors', 'successors']), 'of': rnd.randrange(9), 'op': 'query'}
         mode = rnd.random()
         if mode < 0.06:
             pass                       # no filter at all: lst() / remove_all() select everything
@@ -287,7 +326,7 @@ def gen_case(rnd):
                                         'resource': ['R1', None, 'R9'], 'flag': ['z', 5, None, True], 'iteration': [2, None, 7]}[step['attr']])
         elif r < 0.3:
             step['op'] = 'remove_all'
-            step['list'] = rnd.choice(['roots', 'children', 'wbs'])
+            step['list'] = rnd.choice(['roots', 'children', 'wbs', 'predecessors', 'successors'])
         steps.append(step)
     return {'kind': 'query', 'world': world, 'steps': steps}
 
